@@ -612,11 +612,19 @@ func runC05(c *hc.Ctx) error {
 	}
 	// large coordinates on a real grid (regression of F4: vertices hit twice were looked up through a float->int
 	// round trip that is off by more than one unit there): WebMercatorQuad tile matrix 14 around (600000, 6800000)
-	if wm, err := embeddedGrid("WebMercatorQuad", 14); err == nil {
-		for i := 0; i < c.N(120, 6000); i++ {
-			span := wm.Span(wm.Level(14))
+	for _, wmID := range []int{14, 18, 20} {
+		wm, err := embeddedGrid("WebMercatorQuad", wmID)
+		if err != nil {
+			continue
+		}
+		for i := 0; i < c.N(60, 3000); i++ {
+			span := wm.Span(wm.Level(wmID))
 			bx := int64(6000000000000000) + c.Rng.Int63n(1000)*span
 			by := int64(68000000000000000) + c.Rng.Int63n(1000)*span
+			if c.Rng.Intn(2) == 0 { // far from the origin (New Zealand): products of coordinates ~1e14
+				bx = int64(194600000000000000) + c.Rng.Int63n(1000)*span
+				by = int64(-50500000000000000) + c.Rng.Int63n(1000)*span
+			}
 			nv := 4 + c.Rng.Intn(8)
 			var ring []Pt
 			ok := true
@@ -638,17 +646,17 @@ func runC05(c *hc.Ctx) error {
 			}
 			for _, keep := range []bool{false, true} {
 				cfg := snap.Config{KeepPointsAndLines: keep, ReverseWindingOrder: c.Rng.Intn(2) == 0}
-				r := runSnap(wm, poly, []int{14}, cfg, watchdog)
+				r := runSnap(wm, poly, []int{wmID}, cfg, watchdog)
 				c.Sum.Evaluations++
-				c.Count("WebMercatorQuad id 14, large coordinates")
+				c.Count(fmt.Sprintf("WebMercatorQuad id %d, large coordinates", wmID))
 				if collapses(wm, poly, r) {
-					c.Nontrivial(keyOf(wm, poly, []int{14}, cfg))
+					c.Nontrivial(keyOf(wm, poly, []int{wmID}, cfg))
 				}
-				if unexpectedPanic(c, wm, poly, []int{14}, cfg, r) {
+				if unexpectedPanic(c, wm, poly, []int{wmID}, cfg, r) {
 					continue
 				}
-				checkRingsWellFormed(c, wm, poly, []int{14}, cfg, r)
-				c.Case(snapCaseTerm(wm, poly, []int{14}, cfg, r), caseJSON(wm, poly, []int{14}, cfg, r))
+				checkRingsWellFormed(c, wm, poly, []int{wmID}, cfg, r)
+				c.Case(snapCaseTerm(wm, poly, []int{wmID}, cfg, r), caseJSON(wm, poly, []int{wmID}, cfg, r))
 			}
 		}
 	}
@@ -841,6 +849,8 @@ func runC08(c *hc.Ctx) error {
 			if err != nil {
 				return err
 			}
+			// the caller's id list comes from ranging over a Go map: any order, so shuffle it
+			c.Rng.Shuffle(len(ids), func(a, b int) { ids[a], ids[b] = ids[b], ids[a] })
 			r := runSnap(gm, poly, ids, cfg, watchdog)
 			c.Sum.Evaluations++
 			if len(ids) >= 2 {
